@@ -53,6 +53,7 @@ def main():
                 t0 = time.time()
                 rc, out = sh([os.path.join(VERIF, 'check'), prop, '--tier', tier], cwd=VERIF, env=env, timeout=7200)
                 lines = [l for l in out.split('\n') if l.startswith('VIOLATION') or l.startswith('KNOWN-FINDING')]
+                lines.sort(key=lambda l: not l.startswith('VIOLATION'))   # verdict lines first: the list is truncated
                 res[f'check_{tier}'] = {'exit': rc, 'lines': lines[:6], 'wall_s': round(time.time() - t0, 1),
                                         'detail': [l for l in out.split('\n') if l.startswith('  ')][:6]}
     finally:
